@@ -1,5 +1,9 @@
 """C12 — the command-line tool's exit status, streams and output modes form one contract.
 
+T:      tools/translate_cli.py reads the glue's constants (exit status mapping, checked flush of
+        stdout, YAML literals, virtual file names, order of the variable loops, split_once('='))
+        from the current main.rs / cli.rs into Gen/CliConsts.v; C12_source_constants proves
+        they are the model's.
 Proof:  Props/C12.v over Model/Cli.v (run : config -> world -> result, a branch-by-branch
         model of rsjsonnet/src/main.rs + the two argument parsers of cli.rs + the
         zero-positional instance of check_call_args_generic).
